@@ -41,8 +41,8 @@ Theorem C19_every_subset_builds_json :
   forall S, In S (all_subsets (feature_names gen_json)) -> builds gen_json (closure gen_json S) = true.
 Proof. exact every_subset_builds_json. Qed.
 
-(* gates are positive formulas naming declared features only; implied features are declared and `dep:` names
-   optional dependencies; the closure iteration reaches a fixed point on every subset *)
+(* no gate negates a feature and gates name declared features only; implied features are declared and `dep:`
+   names optional dependencies; the closure iteration reaches a fixed point on every subset *)
 Theorem C19_tables_well_formed :
   forallb (fun T => table_positive T && table_declared T && closure_closed T) gen_crates = true.
 Proof. exact tables_well_formed. Qed.
